@@ -11,4 +11,4 @@ for p in "$@"; do
   echo "$p exit=$rc $(echo "$out" | grep -m1 '  class=' | cut -c1-200)"
 done
 git -C /repo worktree remove --force $D
-rm -rf /verif/build-alt-* /verif/out-alt-*
+SUF=$(python3 -c "import hashlib,os;print(hashlib.md5(os.path.realpath('$D').encode()).hexdigest()[:6])"); rm -rf /verif/build-alt-$SUF /verif/out-alt-$SUF
